@@ -253,6 +253,8 @@ class StartupRun:
                             fac.__annotations__["return"] = TYPES[tys[0]] if len(tys) == 1 else \
                                 typing.Union[tuple(TYPES[t] for t in tys)]
                             add_resource_factory(fac, a["name"], description=desc)
+                        elif len(tys) == 1 and fid % 2 == 0:
+                            add_resource_factory(fac, a["name"], types=TYPES[tys[0]], description=desc)     # one type, given bare
                         else:
                             add_resource_factory(fac, a["name"], types=[TYPES[t] for t in tys], description=desc)
                     for t in tys:
@@ -492,7 +494,7 @@ class StartupRun:
                             config: dict[str, Any] = {}
                             if self.twin_next["T"]:
                                 shared = {"type": f"{__name__}:DYN_TWIN",
-                                          "components": {"lf": {"type": f"{__name__}:DYN_TWINLEAF"}}}
+                                          "components": {"": {"type": f"{__name__}:DYN_TWINLEAF"}}}
                                 config = {"components": {alias_of(self.prog[i]): shared for i in list(self.twin_next["T"])}}
                             if self.case.get("no_timeout"):
                                 # the documented way to switch the time limit off (a caller's own, far-away limit
